@@ -206,7 +206,7 @@ def run(ctx):
     def as_equality(d):
         if d[0] == "bin" and d[1] in ("Ne", "Eq"):
             return d[1], d[2], d[3]
-        if d[0] == "call" and isinstance(d[1], str) and (d[1].endswith("::ne") or d[1].endswith("::eq")) and len(d[2]) == 2:
+        if d[0] == "call" and isinstance(d[1], str) and (d[1].endswith("::ne") or d[1].endswith("::eq")) and "PartialEq" in d[1] and len(d[2]) == 2:
             ux, uy = unopt(d[2][0]), unopt(d[2][1])
             if ux is not None and uy is not None:
                 return ("Ne" if d[1].endswith("::ne") else "Eq"), ux, uy
